@@ -15,9 +15,11 @@ SPEC_DIR = os.path.join(VERIF, 'spec')
 
 
 class Ctx:
-    def __init__(self, repo, tier, seed):
+    def __init__(self, repo, tier, seed, inline=False):
         self.repo, self.tier, self.seed = repo, tier, seed
-        self.project = Project(repo)
+        self.project = Project(repo, inline=inline)
+        self.is_alt, self._alt = inline, None
+        self._soft_log = []
         self._ev = self._reg = self._cg = self._eff = None
         self._spec = {}
 
@@ -54,14 +56,117 @@ class Ctx:
         back an *undecided* result instead of aborting the property: what the
         other rules establish - a violation in particular - still stands, and
         the report exits 2 only if nothing was violated."""
-        from .report import RuleResult
-        try:
-            return rule_fn(*args, **kw)
-        except AnalysisError as ex:
-            rr = RuleResult('?', getattr(rule_fn, '__name__', 'rule'),
-                            'UNDECIDED', 'rule could not decide')
-            rr.undecided = str(ex)
+        from .report import RuleResult, known_for, match_known
+
+        def run(c, a):
+            try:
+                return c._call(rule_fn, a, kw)
+            except AnalysisError as ex:
+                rr = RuleResult('?', getattr(rule_fn, '__name__', 'rule'),
+                                'UNDECIDED', 'rule could not decide')
+                rr.undecided = str(ex)
+                return rr
+
+        r = run(self, args)
+        self._soft_n = getattr(self, '_soft_n', 0) + 1
+        if self.is_alt:
+            self._soft_log.append(r)
+            return r
+        if os.environ.get('VERIF_NO_ALT_VIEW') or \
+                not isinstance(r, RuleResult):
+            return r
+        new = []
+        if not getattr(r, 'undecided', None):
+            ents = known_for(r.prop)
+            new = [f for f in r.findings if match_known(f, ents) is None]
+            if not new and r.instances < r.floor:
+                # fewer instances than the rule expects: undecided as well
+                r2 = self._alt_result(self._soft_n - 1)
+                if isinstance(r2, RuleResult) and not getattr(
+                        r2, 'undecided', None) and (
+                        r2.template, r2.text) == (r.template, r.text) and \
+                        r2.instances >= r2.floor:
+                    r2.notes.append('instances counted on the view with new '
+                                    'private helpers expanded (as written: '
+                                    '%d < floor %d)' % (r.instances, r.floor))
+                    return r2
+                return r
+            if not new:
+                return r
+        # The rule could not decide, or reports something new.  Ask the
+        # equivalent view of the package in which *new* private helpers are
+        # expanded at their call sites: the whole property is run there once,
+        # and the result of the same rule (the same position in the run) is
+        # compared.  An undecided rule may decide there; a violation that is
+        # not there however the code is written was a matter of spelling and
+        # is withdrawn as "cannot decide".
+        r2 = self._alt_result(self._soft_n - 1)
+        if os.environ.get('VERIF_DEBUG_ALT'):
+            print('ALT %s: %r' % (getattr(rule_fn, '__name__', '?'), (
+                getattr(r2, 'undecided', None),
+                [f.key for f in getattr(r2, 'findings', [])][:3])
+                if r2 is not None else None))
+        if r2 is None or not isinstance(r2, RuleResult):
+            return r
+        if not getattr(r, 'undecided', None) and not getattr(
+                r2, 'undecided', None) and (r2.template, r2.text) != (
+                r.template, r.text):
+            return r      # not the same rule: the two runs diverged
+        und2 = getattr(r2, 'undecided', None)
+        if getattr(r, 'undecided', None):
+            if und2:
+                return r
+            r2.notes.append('decided on the view with private helpers '
+                            'expanded at their call sites (as written: %s)'
+                            % r.undecided[:160])
+            return r2
+        if und2:
+            return r
+        ents2 = known_for(r2.prop)
+        new2 = [f for f in r2.findings if match_known(f, ents2) is None]
+        if new2:
+            return r
+        why = ('the rule reports `%s` on the code as written but holds on '
+               'the equivalent view with new private helpers expanded at '
+               'their call sites: the report depends on how the code is '
+               'spelled, not on what it does' % new[0].key)
+        if os.environ.get('VERIF_ALT_STRICT'):
+            rr = RuleResult(r.prop, r.rule, r.template, r.text, r.floor)
+            rr.instances = r.instances
+            rr.undecided = why
             return rr
+        # the two programs are equivalent and the rule holds on one of them
+        r2.notes.append('holds on the view with new private helpers expanded '
+                        'at their call sites; as written: %s' % why[:300])
+        return r2
+
+    def _alt_result(self, index):
+        """Result of the index-th rule of this property's run on the view
+        with new private helpers expanded; None if that view is identical to
+        the code as written, or could not be run."""
+        if self._alt is None:
+            self._alt = False
+            run_fn = getattr(self, '_run', None)
+            if run_fn is None:
+                return None
+            try:
+                alt = Ctx(self.repo, self.tier, self.seed, inline=True)
+                if not alt.project.n_inlined:
+                    return None      # nothing to expand: same program
+                alt._soft_log = []
+                run_fn(alt)
+                self._alt = alt
+            except Exception:
+                if os.environ.get('VERIF_DEBUG_ALT'):
+                    traceback.print_exc()
+                return None
+        if not self._alt:
+            return None
+        log = self._alt._soft_log
+        return log[index] if index < len(log) else None
+
+    def _call(self, rule_fn, args, kw):
+        return rule_fn(*args, **kw)
 
     def spec(self, name):
         if name not in self._spec:
@@ -78,6 +183,7 @@ def run_property(prop, repo, tier, seed, selftest=None, quiet=False):
     t0 = time.time()
     mod = importlib.import_module('sa.rules.%s' % prop.lower())
     ctx = Ctx(repo, tier, seed)
+    ctx._run = mod.run
     results = mod.run(ctx)
     meta = mod.META
     extra = {}
@@ -86,6 +192,13 @@ def run_property(prop, repo, tier, seed, selftest=None, quiet=False):
         extra['call_sites_resolved'] = ctx._cg.n_resolved
     if ctx._reg is not None:
         extra['registrations'] = len(ctx._reg.all())
+    alt = ctx._alt
+    extra['second_view'] = (
+        {'built': True, 'call_sites_expanded': alt.project.n_inlined}
+        if alt else {'built': False, 'why': 'not needed: no rule reported a '
+                     'new violation or was undecided on the code as written, '
+                     'or no private definition is new relative to '
+                     'spec/anchors.json'})
     if ctx.project.renamed_back:
         extra['anchors_renamed_back'] = [
             '%s: %s -> %s' % r for r in ctx.project.renamed_back]
